@@ -215,6 +215,21 @@ pub fn gen_c07(rng: &mut Rng, thorough: bool) -> Vec<Tagged> {
         // unsupported rank is refused
         out.push((format!("{:?}-rank2-bad", a), Case::Act(a, false, t2(2, 2, &rng.vec(4, 1)))));
     }
+    // soft-max streams: all negative (small and huge), all positive huge, mixed, constant, single
+    for r in 0..(if thorough { 200 } else { 30 }) {
+        let n = rng.range(1, 12);
+        let scale = *rng.pick(&[1.0f32, 10.0, 90.0, 200.0, 1e4, 1e20, 3e38]);
+        let v: Vec<f32> = match r % 5 {
+            0 => (0..n).map(|_| -(rng.unit() + 0.01) * scale).collect(),
+            1 => (0..n).map(|_| (rng.unit() + 0.01) * scale).collect(),
+            2 => (0..n).map(|_| rng.sym() * scale).collect(),
+            3 => vec![-(rng.unit() + 0.5) * scale; n],
+            _ => (0..n).map(|i| if i == 0 { -scale } else { -scale * 0.999 }).collect(),
+        };
+        for bwd in [false, true] {
+            out.push((format!("Softmax-stream{}-{}", r % 5, if bwd { "bwd" } else { "fwd" }), Case::Act(Act::Softmax, bwd, t1(v.clone()))));
+        }
+    }
     // boundary vector through every element-wise activation
     let edge = strat_floats(rng, 0);
     for a in ALL_ACTS {
@@ -526,6 +541,33 @@ pub fn gen_c03(rng: &mut Rng, thorough: bool) -> Vec<Tagged> {
                 }
             }
             out.push((format!("{}-g{}", opt.kind(), gk), Case::OptHistory { opt, vals, steps }));
+        }
+    }
+    // every option combination of every optimizer on every rank, 3 steps (step numbers 1, 2, 5)
+    let some_none = [None, Some(0.05f32)];
+    let mut combos: Vec<Opt> = vec![];
+    for d in some_none {
+        combos.push(Opt::SGD { lr: 0.1, decay: d });
+        for mo in [0.9f32, 0.0] {
+            for da in [0.0f32, 0.25] {
+                combos.push(Opt::SGDM { lr: 0.1, momentum: mo, dampening: da, decay: d });
+            }
+        }
+        combos.push(Opt::Adam { lr: 0.01, b1: 0.9, b2: 0.999, eps: 1e-8, decay: d });
+        for mo in [None, Some(0.9f32)] {
+            for c in [false, true] {
+                combos.push(Opt::RMS { lr: 0.01, alpha: 0.9, eps: 1e-8, decay: d, momentum: mo, centered: c });
+            }
+        }
+    }
+    combos.push(Opt::AdamW { lr: 0.01, b1: 0.9, b2: 0.999, eps: 1e-8, decay: 0.01 });
+    combos.push(Opt::AdamW { lr: 0.01, b1: 0.9, b2: 0.999, eps: 1e-8, decay: 0.0 });
+    for opt in combos {
+        for rank in 1..=3usize {
+            let shape = match rank { 1 => Shape::Single(4), 2 => Shape::Double(2, 2), _ => Shape::Triple(1, 2, 2) };
+            let w = tensor_of_shape(&shape, &rng.vec(4, 2));
+            let steps: Vec<(usize, usize, bool, i32, Tensor)> = [1, 2, 5].iter().map(|s| (0usize, 0usize, false, *s, tensor_of_shape(&shape, &rng.vec(4, 2)))).collect();
+            out.push((format!("{}-combo-rank{}", opt.kind(), rank), Case::OptHistory { opt: opt.clone(), vals: vec![vec![vec![w]]], steps }));
         }
     }
     // wrong slot / rank mismatch is refused
